@@ -378,6 +378,16 @@ def run_gridcoord(c):
 
 # ----------------------------------------------------------------------------- C14
 def run_funcrep(c):
+    """mixed: 64-bit mode with a float32 value array and float64 evaluation points (mixed precision)."""
+    if c.get("mixed"):
+        import jax
+
+        with jax.enable_x64(True):
+            return _run_funcrep(c)
+    return _run_funcrep(c)
+
+
+def _run_funcrep(c):
     import jax.numpy as jnp
     import numpy as np
 
@@ -415,7 +425,7 @@ def run_funcrep(c):
         for n, v in zip(dn, pt["dense"], strict=True):
             a[prefix + n] = v
         for n, v in zip(cn, pt["cont"], strict=True):
-            a[prefix + n] = jnp.float32(_fr(v))
+            a[prefix + n] = jnp.float64(_fr(v)) if c.get("mixed") else jnp.float32(_fr(v))
         res.append(float(f(**a)))
     out = dict(c)
     out["obs"] = [MDL.enc(x) for x in res]
@@ -703,6 +713,11 @@ def run_lifecycle(c):  # noqa: C901, PLR0912, PLR0915
                     choices = list(choices)
                 else:
                     states[7] = states.pop(sn[0])
+            if c.get("via_replace"):
+                # the specification is written down in two steps: a valid model first, then Model.replace with the
+                # (rule-violating) attributes -- a model obtained that way is a specification like any other
+                valid = MDL.build(m)
+                return valid.replace(n_periods=n_periods, functions=funcs, states=states, choices=choices)
             return Model(n_periods=n_periods, functions=funcs, states=states, choices=choices)
         model = stage("model", mk_model)
 
